@@ -666,6 +666,15 @@ func (fc *FCtx) callByContract(c *FuncContract, fn *types.Func, sig *types.Signa
 		names[rname] = rv
 		if _, isPtr := sig.Recv().Type().(*types.Pointer); isPtr && fc.implicitRecv[recvExpr] == nil {
 			outs = append(outs, outParam{sig.Recv().Name(), recvExpr, sig.Recv().Type()})
+		} else if fc.implicitRecv[recvExpr] == nil {
+			// a receiver of interface type that the contract lists in `modifies`: the object behind the interface value
+			// changes; the variable holding it is rebound to a fresh value that the ensures clauses relate to the old one
+			// through abstract (uninterpreted) view functions
+			for _, m := range c.Modifies {
+				if m == rname {
+					outs = append(outs, outParam{rname, recvExpr, fc.info().TypeOf(recvExpr)})
+				}
+			}
 		}
 	}
 	pn := paramNames(sig, c)
